@@ -1098,3 +1098,90 @@ Proof.
   - destruct b; [discriminate|]. destruct c; discriminate.
   - destruct (in_scope (sh s) x); discriminate.
 Qed.
+
+(* ---- the two places where the faithful model of the CURRENT code fails the
+        full statements: witnesses (findings), by computation ---- *)
+
+Definition ev0 : event := mkEvent 0 "d" "c" OpInsert.
+Definition ev1 : event := mkEvent 1 "d" "c" OpInsert.
+Definition hcoll : handle := ("d"%string, "c"%string).
+
+(* FULL STATEMENT (false of the current code):
+     forall streams and interleavings, if retention removed an event the
+     stream has not passed, the next pass reports Lost.
+   Witness 1: a stream opened on an EMPTY oplog (s.last = nil).  Two inserts
+   are committed, retention removes the first, TryNext returns the second:
+   event 0 is in scope, was committed after the start, is never delivered, and
+   no error is reported. *)
+Definition skip_script : list sstep :=
+  [SCommit [ev0; ev1]; STrim 1; SIter false false; SIter false false].
+
+Theorem lost_is_reported_refuted :
+  exists h st0 script,
+    watch h watch_now [] = Some st0 /\ script_ok [] script /\
+    let w := exec (world0 [] 0 st0) script in
+    (* an in-scope event committed after the start was discarded before delivery *)
+    (exists e, In e (w_hist w) /\ in_scope h e = true /\ ~ In e (w_deliv w) /\ ~ In e (w_log w)) /\
+    (* no pass reported Lost, the stream is alive and reports "nothing more" *)
+    ~ In (Return Lost) (w_outs w) /\ serror (w_st w) = None /\ sclosed (w_st w) = false /\
+    (* what it delivered skips that event: not a prefix of the expected sequence *)
+    w_deliv w = [ev1] /\ expected h (w_hist w) = [ev0; ev1] /\
+    ~ prefix (w_deliv w) (expected h (w_hist w)).
+Proof.
+  exists hcoll, (mkS hcoll None false false None None None), skip_script.
+  split; [reflexivity|]. split.
+  - simpl. split; [|exact Logic.I]. repeat constructor; simpl; intuition discriminate.
+  - vm_compute. repeat split.
+    + exists ev0. repeat split; [left; reflexivity| |]; unfold ev0, ev1; intuition discriminate.
+    + intuition discriminate.
+    + intros [c H]. discriminate.
+Qed.
+
+(* Witness 2: startAtOperationTime at (or before) the first retained event also
+   leaves s.last = nil *)
+Theorem lost_is_reported_refuted_start_at :
+  exists h st0 script,
+    watch h (mkW None None (Some 0%Z)) [ev0; ev1] = Some st0 /\ slast st0 = None /\
+    let w := exec (world0 [ev0; ev1] 0 st0) script in
+    script_ok [ev0; ev1] script /\
+    ~ In (Return Lost) (w_outs w) /\ w_deliv w = [ev1] /\
+    ~ prefix (w_deliv w) (expected h (w_hist w)).
+Proof.
+  exists hcoll, (mkS hcoll None false false None None None), [STrim 1; SIter false false; SIter false false].
+  split; [reflexivity|]. split; [reflexivity|]. vm_compute. repeat split.
+  - intuition discriminate.
+  - intros [c H]. discriminate.
+Qed.
+
+(* FULL STATEMENT (false of the current code):
+     if no trim removed an event the stream has not passed (position <= ntrim is
+     allowed to be an equality: only passed events were removed), repeated
+     TryNext delivers every in-scope event after the start.
+   Witness: the stream's reference event (already behind it) is removed while
+   the next event is retained: Lost although nothing undelivered was discarded. *)
+Theorem delivery_complete_refuted :
+  exists h st0 script,
+    watch h watch_now [ev0] = Some st0 /\ script_ok [ev0] script /\
+    let w := exec (world0 [ev0] 0 st0) script in
+    w_jumped w = false /\
+    w_ntrim w <= position w /\                       (* nothing beyond the stream's position was removed *)
+    In ev1 (w_log w) /\ in_scope h ev1 = true /\      (* the undelivered event is retained *)
+    (forall n, w_deliv (drain (S n) w) = []) /\       (* yet it is never delivered *)
+    expected h (skipn 1 (w_hist w)) = [ev1] /\
+    snd (next_iter false false (w_st w) (w_log w)) = Return Lost.
+Proof.
+  exists hcoll, (mkS hcoll (Some 0%Z) false false None None None), [SCommit [ev1]; STrim 1].
+  split; [reflexivity|]. split.
+  - simpl. split; [|exact Logic.I]. repeat constructor; simpl; intuition discriminate.
+  - cbv zeta.
+    split; [reflexivity|]. split; [vm_compute; lia|]. split; [vm_compute; auto|].
+    split; [reflexivity|]. split; [|split; reflexivity].
+    intros n. rewrite drain_S.
+    set (w1 := exec_step _ (SIter false false)).
+    assert (H : w_deliv w1 = [] /\ sclosed (w_st w1) = true) by (vm_compute; auto).
+    destruct H as [H1 H2]. clearbody w1. revert w1 H1 H2.
+    induction n as [|n IH]; intros w1 H1 H2; [exact H1|].
+    rewrite drain_S. apply IH.
+    + simpl. unfold next_iter. rewrite H2, orb_true_r. simpl. exact H1.
+    + simpl. unfold next_iter. rewrite H2, orb_true_r. simpl. exact H2.
+Qed.
